@@ -7,7 +7,7 @@ EXTENDS Typst, Universe
 CONSTANTS TIER, SEEDS, SEED
 VARIABLES mode, n
 TermU == U1 \cup AtomsU0 \cup ImgWithLatePH \cup (IF TIER = "thorough" THEN U2rSet(0) ELSE Sample(U2rSet(0), 10, SEED))
-AllVals == {AsTerm(t) : t \in TermU} \cup (IF TIER = "thorough" THEN EnvelopeFullSet(0) ELSE EnvelopeQuickSet(0))
+AllVals == {AsTerm(t) : t \in TermU} \cup (IF TIER = "thorough" THEN EnvelopeFullSet(0) ELSE EnvelopeQuickSet(0)) \cup RichEnvelopeSet(0)
 
 Init == mode = "seed" /\ n \in 0..SEEDS
 Next == mode = "seed" /\ n > 0 /\ mode' = "case" /\ n' \in Part(AllVals, n, SEEDS)
